@@ -10,6 +10,7 @@ import (
 	"time"
 
 	"verif/internal/instr"
+	"verif/internal/specgen"
 )
 
 type genBuild struct {
@@ -102,8 +103,11 @@ func genCorpus(forC19 bool) []CorpusEntry {
 	var c []CorpusEntry
 	c = append(c, loadCorpusDir(filepath.Join(verifDir, "corpus", "fixtures"), "F")...)
 	c = append(c, loadCorpusDir(filepath.Join(verifDir, "corpus", "hand"), "K")...)
-	if d := filepath.Join(verifDir, "corpus", "gen"); dirExists(d) {
-		c = append(c, loadCorpusDir(d, "G")...)
+	// G: seeded synthetic specs in the supported dialect
+	seed := seedFromEnv()
+	for i := 0; i < envInt("VERIF_GEN_SPECS", 30); i++ {
+		name, text := specgen.Generate(seed, i)
+		c = append(c, CorpusEntry{Name: name, Class: "G", Spec: text, SpecName: "openapi.yaml"})
 	}
 	return c
 }
